@@ -367,7 +367,7 @@ Definition event_okb (s : state sym_kern) (e : event sym_kern) : bool :=
                                 [mk_obj sym_kern res_ (deriv_mat sym_kern d (o_mat sym_kern o))])
       | None => true
       end &&
-      match fst (deriv_roots sym_kern st i d kids res_ h) with
+      match fst (deriv_roots sym_kern fl_pinned st i d kids res_ h) with
       | Ok x => transplant_okb d x
       | Raise _ => true
       end
